@@ -131,6 +131,9 @@ class PropCheck:
     # -- to override ------------------------------------------------------------------------------
     def gen_cases(self):
         return []
+    def case_chunks(self):
+        """iterable of lists of cases; override for very large case sets"""
+        return [self.gen_cases()]
     def nontrivial(self, case, impl_lines):
         return True
     def predicate(self, case, impl_lines):
@@ -144,6 +147,9 @@ class PropCheck:
         return None
     def extra_coverage(self):
         return {}
+    def ignore_disagreement(self, case, reasons):
+        """True when a model/implementation disagreement on this case is expected and harmless (stated per property in DESIGN.md)"""
+        return False
 
     # -- machinery ---------------------------------------------------------------------------------
     def corpus_cases(self):
@@ -187,38 +193,63 @@ class PropCheck:
         if self.release_too and self.tier == 'thorough':
             vf.build_harness(release=True)
 
-        # 3. cases
+        # 3. cases: corpus first, then generated cases, processed chunk by chunk (bounded memory for the big exhaustive sets)
         if replay:
             ops = [l.rstrip('\n') for l in open(replay) if l.strip() and not l.startswith('#') and not l.startswith('case ')]
-            cases = [Case('replay', ops)]
+            chunks = [[Case('replay', ops)]]
         else:
-            cases = self.corpus_cases() + self.gen_cases()
-        impl, model = vf.run_cases(cases, self.workdir, timeout=self.timeout)
-
-        # 4. compare + predicate
+            chunks = self.case_chunks()
         disagreements = []
         pred_fail = []
         seen = set()
         nontriv = 0
-        for c in cases:
-            il = impl.get(c.cid, [])
-            ml = model.get(c.cid, [])
-            d = [] if c.meta.get('impl_only') else vf.compare_case(c, il, ml, self.case_tol(c), self.strict_err_ops)
-            p = self.predicate(c, il)
-            if d:
-                disagreements.append((c, d))
-            if p:
-                pred_fail.append((c, p))
-            h = vf.case_hash(c)
-            if h not in seen:
-                seen.add(h)
-                if self.nontrivial(c, il):
-                    nontriv += 1
+        n_cases = 0
+        n_ops = 0
+        n_model = 0
+        impl = {}; model = {}
+        kept_cases = []          # a thinned sample kept for the extraction cross-check and the evidence samples
+        first_chunk = True
+        for chunk in chunks:
+            if first_chunk and not replay:
+                chunk = self.corpus_cases() + chunk
+                first_chunk = False
+            if not chunk:
+                continue
+            c_impl, c_model = vf.run_cases(chunk, self.workdir, timeout=self.timeout)
+            for c in chunk:
+                il = c_impl.get(c.cid, [])
+                ml = c_model.get(c.cid, [])
+                d = [] if c.meta.get('impl_only') else vf.compare_case(c, il, ml, self.case_tol(c), self.strict_err_ops)
+                p = self.predicate(c, il)
+                if d and self.ignore_disagreement(c, d):
+                    self.stats['disagreements_ignored_by_rule'] = self.stats.get('disagreements_ignored_by_rule', 0) + 1
+                    d = []
+                keep = False
+                if d:
+                    disagreements.append((c, d)); keep = True
+                if p:
+                    pred_fail.append((c, p)); keep = True
+                h = vf.case_hash(c)
+                if h not in seen:
+                    seen.add(h)
+                    if self.nontrivial(c, il):
+                        nontriv += 1
+                n_cases += 1
+                n_ops += len(c.ops)
+                if not c.meta.get('impl_only'):
+                    n_model += 1
+                if keep or n_cases % 97 == 1 or n_cases <= 3:
+                    if keep or len(kept_cases) < 5000:
+                        kept_cases.append(c)
+                        impl[c.cid] = il; model[c.cid] = ml
+                else:
+                    c.meta.pop('model_ops', None)
+        cases = kept_cases
 
         # 4b. the extracted program against vm_compute inside Coq on a sample of the same cases
         vm = {'sampled': 0, 'agreed': 0, 'failed': []}
         if not replay:
-            sample = [c for c in cases if not c.meta.get('impl_only')]
+            sample = [c for c in cases if not c.meta.get('impl_only') and c.meta.get('model_ops')]
             step = max(1, len(sample) // 200)
             vm = vmcheck.cross_evaluate(sample[::step], model, os.path.join(self.workdir, 'vm'), max_cases=self.vm_sample)
             if vm['failed']:
@@ -274,12 +305,12 @@ class PropCheck:
             'checker_cmd': 'make -C /verif/coq (full .vo build) && coqc -Q coq/theories PT coq/theories/props/%s.v (Print Assumptions)' % pid,
             'trusted_base': TRUSTED_BASE + ['axioms reported by Print Assumptions: ' + (', '.join(po['axioms']) if po['axioms'] else 'none (closed under the global context)')],
             'theorems': po['theorems'],
-            'evaluations': len(cases), 'distinct_nontrivial': nontriv, 'rule': self.rule, 'samples': samples,
+            'evaluations': n_cases, 'distinct_nontrivial': nontriv, 'rule': self.rule, 'samples': samples,
             'disagreements': len(disagreements), 'predicate_failures': len(pred_fail),
             'known_findings_matched': sorted(reported_known),
             'extraction_cross_check': {'cases_re_evaluated_in_coq_by_vm_compute': vm['sampled'], 'agreed_with_extracted_program': vm['agreed']},
-            'ops_executed': sum(len(c.ops) for c in cases),
-            'cases_compared_with_model': sum(1 for c in cases if not c.meta.get('impl_only')),
+            'ops_executed': n_ops,
+            'cases_compared_with_model': n_model,
         }
         cov.update(self.stats)
         cov.update(self.extra_coverage())
